@@ -96,6 +96,7 @@ def _cell(args):
 
 def run(ctx, replay=None):
     lib()
+    ctx.notes["reflectors_certified_by_TLC"] = E.check_against_tlc(ctx)
     thorough = ctx.tier == "thorough"
     ctx.assumptions += [
         "exact inputs A = U diag(s) V^H with known singular values; every clause is a deterministic consequence of the algorithm and must hold for every draw of the global generator (seeds listed in the evidence)",
